@@ -103,21 +103,28 @@ def output_side(ch, r):
     sc = bytesgen.build(ch, max_frames=8)
     a = sc.endpoint()
     b = sc.endpoint()
-    # make both endpoints produce output: feed the stream, but read b's output piecewise
+    # both endpoints get the same input in the same chunks; a's output is read once at the very end, b's in
+    # pieces of drawn sizes - bounded reads and unbounded ones mixed - while more output keeps being produced
     ca, cb = a.c, b.c
     stream = sc.stream()
     whole = bytes(a.sent)
     parts = [bytes(b.sent)]
-    try:
-        ca.receive_data(stream)
-    except Exception:   # noqa: BLE001 - error streams still produce output (GOAWAY)
-        pass
-    try:
-        cb.receive_data(stream)
-    except Exception:   # noqa: BLE001
-        pass
-    whole += ca.data_to_send()
+    cuts = sorted({ch.int(1, max(1, len(stream) - 1)) for _ in range(ch.int(0, 3))}) if len(stream) > 1 else []
     amounts = []
+    for chunk in bytesgen.split(stream, cuts):
+        for c_ in (ca, cb):
+            try:
+                c_.receive_data(chunk)
+            except Exception:   # noqa: BLE001 - error streams still produce output (GOAWAY)
+                pass
+        for _ in range(ch.int(0, 6)):
+            amt = ch.pick([1, 2, 9, 10, 16, 100, 0, 7, 1000, None])
+            amounts.append(amt)
+            piece = cb.data_to_send(amt)
+            if amt is not None and len(piece) > amt:
+                r.violate('C21:read-longer-than-asked', '%d > %d' % (len(piece), amt))
+            parts.append(piece)
+    whole += ca.data_to_send()
     for _ in range(200):
         amt = ch.pick([1, 2, 9, 10, 16, 100, 0, 7, 1000])
         amounts.append(amt)
@@ -128,11 +135,18 @@ def output_side(ch, r):
         if amt and not piece:
             break
     parts.append(cb.data_to_send())
-    r.step('output-side', 'client' if sc.client else 'server', amounts[:20], len(whole))
-    if b''.join(parts) != whole:
+    r.step('output-side', 'client' if sc.client else 'server', 'cuts', cuts, amounts[:30], len(whole))
+    has_goaway = any(len(f) >= 9 and f != wire.PREFACE and wire.parse_header(f[:9])[1] == wire.GOAWAY
+                     for f in sc.frames)
+    if has_goaway:
+        # a received GOAWAY discards un-read output (C19): how much that is depends on what was read before
+        r.labels.add('output-side:goaway-in-stream-not-compared')
+    elif b''.join(parts) != whole:
         r.violate('C21:partial-reads-not-a-partition', '%d vs %d bytes' % (len(b''.join(parts)), len(whole)))
     r.nontrivial = len(whole) > 20
     r.labels.add('output-side')
+    if None in amounts:
+        r.labels.add('output-side:unbounded-read-in-between')
     return r
 
 
